@@ -64,6 +64,14 @@ class TermCx:
             if "bits" in c:
                 return ("const", c["ty"], int(c["bits"]))
             if c.get("uneval"):
+                # a named, non-generic constant of the workspace whose value the compiler evaluated (string or integer): the value
+                # itself, so that `tagged_hash("TapTweak")` and `tagged_hash(TAP_TWEAK_TAG)` are the same term
+                val = self.prog.consts.get(c["uneval"]) if hasattr(self.prog, "consts") else None
+                if isinstance(val, str) and val.startswith('"') and val.endswith('"') and "str" in c["ty"]:
+                    return ("const", "&str", val)
+                if isinstance(val, str) and re.fullmatch(r"-?\d+(_?[iu](8|16|32|64|128|size))?", val):
+                    m_ = re.match(r"-?\d+", val)
+                    return ("const", c["ty"], int(m_.group(0)))
                 return ("const", c["ty"], "uneval:" + c["uneval"])
             return ("const", c["ty"], c["c"])
         return ("unknown", "operand")
